@@ -136,6 +136,16 @@ class Executor(Engine, ExprMixin, StmtMixin, CallMixin):
 
     def havoc_one(self, st, c, env, m):
         m = m.strip()
+        if m in ('*[]', '*{}'):
+            # the contents of every list / every dict and set may change (coarse frame of an assumed contract);
+            # lengths stay non-negative by the typing assumptions made at loads
+            if m == '*[]':
+                st.heap['$ELEM'] = fresh('hv_all_elem', ElemArr)
+                st.heap['$OFF'] = fresh('hv_all_off', LenArr)
+            else:
+                st.heap['$DMAP'] = fresh('hv_all_dmap', z3.ArraySort(IntS, DMapInner))
+            st.heap['$LEN'] = fresh('hv_all_len', LenArr)
+            return
         if m.startswith('$'):
             st.heap[m] = fresh('hv_' + m[1:], IntS)
             return
@@ -955,7 +965,11 @@ class Executor(Engine, ExprMixin, StmtMixin, CallMixin):
         whole = set()
         for m in c.modifies:
             m = m.strip()
-            if m.startswith('$'):
+            if m == '*[]':
+                whole.update(('$LEN', '$ELEM', '$OFF'))
+            elif m == '*{}':
+                whole.update(('$LEN', '$DMAP'))
+            elif m.startswith('$'):
                 whole.add(m)
             elif m.startswith('*.'):
                 whole.add(m[2:])
